@@ -254,6 +254,26 @@ Theorem C10_producers_consumers :
 Proof. exact (prodcons_is_spec PKRows). Qed.
 Print Assumptions C10_producers_consumers.
 
+(** ... and, written out, what [spec_prodcons_rows] lists and shows.  [coefs] = for every segment and reported row
+    the signed coefficients [coef_rows]: + coefficient for producers, - coefficient for consumers, evaluated on the
+    row's reported values.  A reaction is LISTED ([kept]) iff it mentions the variable and its signed coefficient is
+    positive in SOME reported row of SOME segment; a CELL is the flux (times the coefficient if scaled) iff the signed
+    coefficient is positive in THAT row, and NaN otherwise. *)
+Theorem C10_listed_iff_sign_somewhere :
+  forall fs coefs j rn,
+    In (j, rn) (kept fs coefs) <->
+    (exists c, nth_error fs j = Some (rn, c)) /\
+    exists rows row, In rows coefs /\ In row rows /\ 0 < nth j row 0.
+Proof. exact kept_spec. Qed.
+Print Assumptions C10_listed_iff_sign_somewhere.
+
+Theorem C10_cell_follows_the_row :
+  forall scaled q c,
+    (0 < c -> mask_cell scaled q c = Some (if scaled then (q * inject_Z c)%Q else q)) /\
+    (c <= 0 -> mask_cell scaled q c = None).
+Proof. exact mask_cell_spec. Qed.
+Print Assumptions C10_cell_follows_the_row.
+
 Theorem C10_producers_consumers_of_the_source :
   forall fsem m r pn tbs st (neg : bool) v scaled n conc,
     wf_res r pn -> evaluable fsem m pn -> canon_tables fsem m r = Ok tbs -> good_state pn tbs st ->
